@@ -11,6 +11,7 @@ from __future__ import annotations
 
 import atexit
 import itertools
+import math
 import os
 import re
 import shutil
@@ -41,7 +42,9 @@ ASSUMPTIONS = [
     'every-nth-day selection is anchored at start_date when given, otherwise at the first day in the database',
     'bounding-box edges are kept >= 1e-3 degrees away from every airport (the spatial index stores float32)',
     'sampling: subset + size within a 6-sigma binomial band (exactly all rows for 1.0); sampled queries are '
-    'exempt from the run-again-equality clause, not from the size band; sample with limit only checks subset/order/size<=limit',
+    'exempt from the run-again-equality clause, not from the size band; sample with limit only checks subset/order/size<=limit; '
+    'the band presupposes independent per-instance sampling: a result in which every matching flight is complete or absent '
+    '(probability < 1e-12 under independent sampling) is reported as sample-unit instead of judging its size',
     'invalid scalar parameters (sample outside (0,1], every_nth<1, limit<1, offset<0, offset without limit) are '
     'only classified (refused/accepted), not judged; an illegal spatial mix must raise ValueError (class docstring)',
     'empty lists for spatial fields and mutation of a query object after its first use are outside the space',
@@ -49,6 +52,7 @@ ASSUMPTIONS = [
 
 F_EMPTY = 'C14-empty-filter-valueerror'
 F_ACCUM = 'C14-query-conditions-accumulate'
+F_CLUSTER = 'C14-sample-per-flight'
 
 _S: dict = {}
 
@@ -308,9 +312,17 @@ def sublattices(tier, seed):
         )  # fmt: skip
 
         # S5 protocol x kind x sample x filter x dates
-        pf = [None, {}, {'country': sp['country'][0]}, {'origin_continent': sp['continent'][0], 'destination_continent': sp['continent'][1]}]
+        pf = [
+            None, {}, {'country': sp['country'][0]},
+            {'origin_continent': sp['continent'][0], 'destination_continent': sp['continent'][1]},
+            {'min_distance': fx['min_distance'][1]},  # a condition served by an index on the flights table
+        ]  # fmt: skip
         if thorough:
-            pf += [dict(s) for s in legal[1:]] + [{'min_distance': fx['min_distance'][1], 'service_type': fx['service_type'][2]}]
+            pf += [dict(s) for s in legal[1:]] + [
+                {'min_distance': fx['min_distance'][1], 'service_type': fx['service_type'][2]},
+                {'max_seat_capacity': fx['max_seat_capacity'][1]},
+                {'aircraft_type': fx['aircraft_type'][2]},
+            ]
         dd = [(None, None), (fx['I'], fx['I9'])] + ([(fx['F'], None), (None, fx['I'])] if thorough else [])
         samples = [None, 1.0, 0.5, 0.25]
         cases = []
@@ -539,7 +551,7 @@ def _check_rows(tab, R, case):
     return vio, ids, tss
 
 
-def _check_query(tab, case, E, r, offset):
+def _check_query(tab, case, E, r, offset, db):
     R = r['res']
     vio, ids, tss = _check_rows(tab, R, case)
     eset = {x['id'] for x in E}
@@ -555,6 +567,39 @@ def _check_query(tab, case, E, r, offset):
             if len(ids) > limit:
                 vio.append(V('limit-offset-slice', f'{len(ids)} rows with limit {limit}'))
             return vio
+        if smp < 1.0:
+            # Sampling unit.  The size band below presupposes that the sampling test is applied to
+            # each instance independently.  If instead every matching flight is returned with all
+            # of its instances or with none, although independent sampling would produce that
+            # pattern with probability < 1e-12, the test ran once per flight: the size then has a
+            # far wider distribution than "the expected size" and is not judged separately.
+            per_flight = Counter(x['flight_id'] for x in E)
+            logp = sum(math.log(smp**c + (1 - smp) ** c) for c in per_flight.values() if c >= 2)
+            probe = ids
+            if not probe and logp < math.log(1e-12):
+                # an empty answer shows no pattern: look at up to 8 further answers of the same
+                # query value (fresh objects) and judge the first non-empty one
+                for _ in range(8):
+                    try:
+                        probe = [x.id for x in db(_make_query(case, _make_filter(case.get('filter')), offset))]
+                    except Exception:
+                        probe = []
+                    if probe:
+                        break
+                if any(i not in eset for i in probe):
+                    probe = []
+            got = Counter(tab.by_id[i]['flight_id'] for i in probe)
+            if probe and logp < math.log(1e-12) and all(got.get(f, 0) in (0, c) for f, c in per_flight.items()):
+                vio.append(
+                    V(
+                        'sample-unit',
+                        f'sample={smp} of {n} matching instances ({len(per_flight)} flights) returned {len(ids)}: all {len(got)} '
+                        f'returned flights are complete, none partly - the sampling test ran once per flight, not per instance '
+                        f'(size band for independent sampling {ref.binom_band(n, smp)})',
+                        finding=F_CLUSTER,
+                    )
+                )
+                return vio
         if smp >= 1.0:
             ok = len(ids) == n
         else:
@@ -668,7 +713,7 @@ def run_case(case):
             vio += _check_freq(case, routes, r)
             sig = [(x.airport1, x.airport2, x.number_of_flights) for x in r['res']]
         else:
-            vio += _check_query(tab, case, E, r, offset)
+            vio += _check_query(tab, case, E, r, offset, db)
             sig = [x.id for x in r['res']]
         if case.get('sample') is None:
             if first_ids is None:
